@@ -39,13 +39,13 @@ def profile(name, **kw):
     PROFILES[name] = base
 
 
-profile("C09", tx=dict(edit=8, query=5, relabel=1, derive_edit=1, persist=0, large=0.15, build=1), steps=(30, 120))
+profile("C09", tx=dict(edit=8, query=5, relabel=1, derive_edit=1, persist=0, large=0.08, build=1), steps=(30, 120))
 profile("C19", tx=dict(edit=6, query=2, faults=4, relabel=1, build=1), steps=(30, 90), fault_rate=(0.05, 0.3))
 profile("C10", tx=dict(edit=3, query=1, derive_edit=8, relabel=1, react=1, persist=1, algebra=2, isomers=1, build=1),
         nontarget=True, check_all_every=4, callers=(2, 4))
-profile("C11", tx=dict(edit=3, query=2, relabel=8, twin=1, derive_edit=1, algebra=1, large=0.1, build=1))
-profile("C01", tx=dict(edit=4, query=1, twin=8, relabel=1, derive_edit=1, large=0.15, hubs=0.2, build=2), max_atoms=(1, 12))
-profile("C03", tx=dict(edit=4, query=2, twin=8, pair=1, large=0.15, hubs=0.2, build=2), max_atoms=(1, 12))
+profile("C11", tx=dict(edit=3, query=2, relabel=8, twin=1, derive_edit=1, algebra=1, large=0.06, build=1))
+profile("C01", tx=dict(edit=4, query=1, twin=8, relabel=1, derive_edit=1, large=0.08, hubs=0.2, build=2), max_atoms=(1, 12))
+profile("C03", tx=dict(edit=4, query=2, twin=8, pair=1, large=0.08, hubs=0.2, build=2), max_atoms=(1, 12))
 profile("C02", tx=dict(edit=4, pair=5, mutant=6, derive_edit=2, wlpair=5, build=2), small=True, max_atoms=(2, 8))
 profile("C05", tx=dict(edit=3, enum=8, symnum=2, derive_edit=2, wlpair=4, build=2), small=True, max_atoms=(2, 13),
         callers=(2, 4))
@@ -55,7 +55,7 @@ profile("C08", tx=dict(edit=2, react=8, derive_edit=2, build=1), classes=("MG", 
 profile("C15", tx=dict(edit=5, persist=8, query=1, relabel=1, build=2))
 profile("C16", tx=dict(edit=3, pair=4, mutant=4, flip=4, isomers=4, react=2, hubs=0.5, build=3), small=True, max_atoms=(2, 8),
         callers=(2, 3))
-profile("C17", tx=dict(edit=4, algebra=8, query=1, large=0.15, build=2), max_atoms=(3, 14))
+profile("C17", tx=dict(edit=4, algebra=8, query=1, large=0.08, build=2), max_atoms=(3, 14))
 
 
 def make_config(rng, prof_name, tier):
@@ -105,6 +105,11 @@ def make_config(rng, prof_name, tier):
     # the profile's own speciality is never switched off
     top = max(p["tx"], key=lambda k: p["tx"][k])
     cfg["tx"][top] = max(cfg["tx"][top], p["tx"][top])
+    if prof_name == "C06":
+        cfg["desc_density"] = rng.choice((0.6, 1.0, 1.0))
+        if len(cfg["elements"]) < 3 and rng.random() < 0.7:
+            cfg["elements"] = rng.sample(pool, rng.choice((3, 4, 5)))
+        cfg["motif_bias"] = rng.choice(("any", "star", "tetra4", "ez", "random"))
     if p["small"] or prof_name in ("C01", "C03"):
         cfg["none_parity"] = rng.choice((0.0, 0.0, 0.0, 0.15)) if prof_name not in ("C16",) else cfg["none_parity"]
     return cfg
@@ -113,6 +118,7 @@ def make_config(rng, prof_name, tier):
 class Gen:
     def __init__(self, seed, prof_name, tier="quick"):
         self.rng = random.Random(seed)
+        self.tier = tier
         self.cfg = make_config(self.rng, prof_name, tier)
         self.w = World(real=False, universe=self.cfg["ids"], max_slots=self.cfg["max_slots"])
         self.ops = []
@@ -724,7 +730,7 @@ class Gen:
             for s in self.graphs(unlocked=True)[:2]:
                 yield dict(k="drop", s=s)
         s = self.slot_id()
-        n = rng.choice((129, 130, 140, 200, 257, 300))
+        n = rng.choice((129, 130, 140, 160, 200, 257) if self.tier == "thorough" else (129, 130, 136, 150, 180))
         kind = rng.choice(self.cfg["classes"])
         yield dict(k="bulk", dst=s, cls=kind, n=n, seed=rng.randrange(2 ** 31),
                    base=rng.choice((0, -50, 1000)), stride=rng.choice((1, 1, 3)), els=sorted(set(self.cfg["elements"]))[:3])
@@ -1243,6 +1249,29 @@ class Gen:
 
     def tx_enant(self):
         rng = self.rng
+        if rng.random() < 0.3:
+            # a molecule that is certainly chiral (or has one E/Z unit)
+            before = set(self.w.slots)
+            yield from self.tx_unit_molecule(parity_none=False)
+            new = [x for x in self.graphs(kinds=("SMG",)) if x not in before]
+            if new:
+                s = new[-1]
+                if rng.random() < 0.5 and self.room() and "SCRG" in self.cfg["classes"]:
+                    d = self.slot_id()
+                    yield dict(k="ctor", src=s, dst=d, cls="SCRG")
+                    sl = self.w.graph(d)
+                    if sl is not None and sl.model.astereo and rng.random() < 0.7:
+                        # move the static descriptor into a stereo change
+                        a = sorted(sl.model.astereo)[0]
+                        dsc = sl.model.astereo[a]
+                        op = dict(k="set_achange", s=d, broken=None, fleeting=None, formed=None)
+                        op[rng.choice(ROLES).lower()] = model.list_desc(dsc)
+                        yield dict(k="del_astereo", s=d, a=a)
+                        yield op
+                    if self.w.graph(d) is not None:
+                        s = d
+                yield dict(k="probe_enant", s=s)
+            return
         c = self.graphs(kinds=("SMG", "SCRG"), nonempty=True)
         if not c:
             yield from self.tx_build()
